@@ -51,7 +51,13 @@ func guarded(f func() string) string {
 		case r := <-done:
 			res = r
 		case <-time.After(2 * time.Second):
-			hangs++ // the goroutine keeps spinning; after a few of them the run stops generating
+			// a loaded machine must not produce a false "hang": wait four times as long again
+			select {
+			case r := <-done:
+				res = r
+			case <-time.After(8 * time.Second):
+				hangs++ // the goroutine keeps spinning; after a few of them the run stops generating
+			}
 		}
 	})
 	return res
